@@ -120,6 +120,11 @@ func question(r *hlib.Rand, known []string, addrs []string) string {
 	default:
 		name = pickKnown()
 	}
+	// names taken off the wire are always fully qualified (miekg/dns unpacks them with the trailing
+	// dot); dns.NewRR would otherwise complete a relative owner name with the root origin
+	if !strings.HasSuffix(name, ".") {
+		name += "."
+	}
 	o := "x"
 	if len(name) >= 2 {
 		if a, err := netip.ParseAddr(name[:len(name)-1]); err == nil {
